@@ -198,6 +198,8 @@ pub struct SendOpts {
 	pub secret_of_reg: Option<usize>,
 	/// final CLTV delta per part (default: the same `final_cltv` for every part)
 	pub part_cltv: Option<Vec<u32>>,
+	/// route the last hop of a two-hop payment over the forwarder's intercept scid (LSP-style forward)
+	pub intercept: bool,
 	pub class: &'static str,
 }
 
@@ -586,6 +588,25 @@ impl World {
 			Event::PaymentClaimable { payment_hash, amount_msat, purpose, claim_deadline, .. } => {
 				self.claimable.push(Claimable { node: n, hash: *payment_hash, preimage: purpose.preimage(), amount_msat: *amount_msat, deadline: *claim_deadline, step: self.step });
 			},
+			Event::HTLCIntercepted { intercept_id, payment_hash, expected_outbound_amount_msat, .. } => {
+				// the LSP's duty: pick the real channel, optionally withhold an extra fee, forward (or refuse)
+				if let Some(p) = self.payments.iter().rev().find(|p| p.hash == *payment_hash && p.class == "intercepted").cloned() {
+					let ci = p.parts[0].0[1];
+					let cid = self.chans[ci].chan_id();
+					let next = self.nodes[p.dst].id;
+					let skim = match self.rng.below(5) {
+						0 => 0,
+						1 => 1,
+						2 => 1000u64.min(*expected_outbound_amount_msat / 2),
+						_ => *expected_outbound_amount_msat / 20,
+					};
+					let r = if self.rng.chance(1, 10) { self.nodes[n].mgr.fail_intercepted_htlc(*intercept_id) } else { self.nodes[n].mgr.forward_intercepted_htlc(*intercept_id, &cid, next, *expected_outbound_amount_msat - skim) };
+					self.obs.push_back(Obs::Api { step: self.step, node: n, call: format!("forward_intercepted_htlc skim={}", skim), result: format!("{:?}", r) });
+					self.drain_taps();
+				} else {
+					let _ = self.nodes[n].mgr.fail_intercepted_htlc(*intercept_id);
+				}
+			},
 			Event::BumpTransaction(bev) => {
 				// the user's duty for anchor channels: hand the event to the library's own bump handler, backed by
 				// a wallet with confirmed coins
@@ -907,7 +928,11 @@ impl World {
 		let mut dst = src;
 		for (k, (chans, amt)) in parts.iter().enumerate() {
 			let fc = opts.part_cltv.as_ref().and_then(|v| v.get(k).cloned()).unwrap_or(final_cltv);
-			let (p, d) = self.build_path(src, chans, *amt, fc, None);
+			let (mut p, d) = self.build_path(src, chans, *amt, fc, None);
+			if opts.intercept && p.hops.len() == 2 {
+				let fwd = self.chans[chans[0]].peer_of(src);
+				p.hops[1].short_channel_id = self.nodes[fwd].mgr.get_intercept_scid();
+			}
 			paths.push(p);
 			dst = d;
 		}
